@@ -307,8 +307,8 @@ def generate(ctx):
             perms = [rng.shuffle(range(k)) for _ in range(24 if ctx.tier == "thorough" else 8)]
         fault = None
         if rng.chance(1, 4):
-            fault = {"lib": rng.below(k), "kind": rng.choice(["missing", "torn", "torn", "torn-tail", "torn-tail", "version", "version", "isdir", "empty"]), "back": rng.range(2, 60), "frac": rng.range(1, 99), "stale": rng.chance(1, 2),
-                     "text": rng.choice(["3 4", "4 0", "2 3", "1 0", "2 9", "3 99"])}
+            fault = {"lib": rng.below(k), "kind": rng.choice(["missing", "torn", "torn", "torn-tail", "torn-tail", "version", "version", "isdir", "empty", "badnum", "badnum", "badnum"]), "back": rng.range(2, 60), "frac": rng.range(1, 99), "stale": rng.chance(1, 2),
+                     "text": rng.choice(["3 4", "4 0", "2 3", "1 0", "2 9", "3 99"]), "value": rng.choice([-5, -1, 2000000000, 2147483647, -2147483648, 99999])}
         elif rng.chance(1, 8):
             fault = {"lib": None, "kind": "none", "stale": True}
         if kind == "dense-cycle":
@@ -550,6 +550,13 @@ def execute(plan):
                     cut -= 1
                 with open(p, "wb") as f:
                     f.write(data[:cut])
+            elif fault["kind"] == "badnum":
+                # one number of the file replaced (a flipped sign, a length far beyond the file): the file may still load --
+                # then the content is simply different -- or not; what is demanded is a clean outcome either way
+                toks = list(re.finditer(rb"(?<![\w.])-?\d+(?![\w.])", data))
+                t = toks[(len(toks) * fault["frac"] // 100) % len(toks)]
+                with open(p, "wb") as f:
+                    f.write(data[:t.start()] + str(fault.get("value", -5)).encode() + data[t.end():])
             elif fault["kind"] == "torn":
                 cut = max(1, len(data) * fault["frac"] // 100)
                 # a cut that removes only trailing whitespace is not a fault
@@ -585,6 +592,12 @@ def execute(plan):
                                    "msg": "interrogate_module %s: %s" % (r.outcome(), where)})
                 if r.timeout:
                     break       # one hang per scenario is enough; the other argument orders would each cost the full time limit
+                continue
+            if load_fault and fault["kind"] == "badnum":
+                verdicts.add("badnum-rejected" if r.status != 0 else "badnum-accepted")
+                if r.status != 0 and text is not None:
+                    violations.append({"property": "C16", "class": "load-fault-output-left", "key": {"kind": "load-fault-output-left", "fault": fault["kind"]},
+                                       "msg": "a damaged database made the tool exit %s but an output file is left behind: %s" % (r.status, where)})
                 continue
             if load_fault:
                 verdicts.add("fault")
